@@ -50,15 +50,23 @@ theorem loop_tail (tail : List Char) (h : TailOk tail) (b : Builder) (fuel : Nat
     exact parseRedirBody_plain none _ o r ht hp
   simp [parseSimpleLoop, hr, ht]
 
-theorem nextOk_after_tail (ps : List Piece) (tail : List Char) (h : TailOk tail) :
+/-- where the simple-command loop stops: a delimiter follows and the loop returns its builder there -/
+structure StopTail (tail : List Char) : Prop where
+  next : NextOk tail
+  stop : ∀ (b : Builder) (fuel : Nat), parseSimpleLoop (fuel + 1) b tail = some (b, tail)
+
+theorem stopTail_of_tailOk (tail : List Char) (h : TailOk tail) : StopTail tail :=
+  ⟨nextOk_tail tail h, fun b f => loop_tail tail h b f⟩
+
+theorem nextOk_after_tail (ps : List Piece) (tail : List Char) (h : NextOk tail) :
     NextOk (afterPiece ps tail) := by
   cases ps with
-  | nil => simpa [afterPiece, printPieces, joinWith] using nextOk_tail tail h
+  | nil => simpa [afterPiece, printPieces, joinWith] using h
   | cons q qs =>
     exact ⟨⟨' ', printPieces (q :: qs) ++ tail, by simp [afterPiece], ⟨by decide, by decide⟩⟩, by
       simp [afterPiece, nextIsAngle, skipLC_cons_ne]⟩
 
-theorem loop_pieces_tail (tail : List Char) (ht : TailOk tail) :
+theorem loop_pieces_tail (tail : List Char) (ht : StopTail tail) :
     ∀ (ps : List Piece) (b : Builder) (fuel : Nat) (sp : Bool), ps.length + 1 ≤ fuel →
       (ps = [] → sp = false) → PiecesOk b ps tail →
       parseSimpleLoop fuel b ((if sp then [' '] else []) ++ (printPieces ps ++ tail)) =
@@ -68,12 +76,12 @@ theorem loop_pieces_tail (tail : List Char) (ht : TailOk tail) :
   | nil =>
     intro b fuel sp hf hsp _
     obtain ⟨k, rfl⟩ : ∃ k, fuel = k + 1 := ⟨fuel - 1, by simp at hf; omega⟩
-    simpa [hsp rfl, printPieces, joinWith] using loop_tail tail ht b k
+    simpa [hsp rfl, printPieces, joinWith] using ht.stop b k
   | cons p ps ih =>
     intro b fuel sp hf _ hok
     obtain ⟨k, rfl⟩ : ∃ k, fuel = k + 1 := ⟨fuel - 1, by simp at hf; omega⟩
     obtain ⟨hp, hrest⟩ := hok
-    have hn := nextOk_after_tail ps tail ht
+    have hn := nextOk_after_tail ps tail ht.next
     have ih' := ih (b.push p) k (!ps.isEmpty) (by simp at hf; omega) (by intro h; simp [h]) hrest
     rw [← afterPiece_eq] at ih'
     rw [printPieces_cons, List.foldl_cons, ← ih']
@@ -128,7 +136,7 @@ theorem pieces_length_le (tail : List Char) : ∀ (ps : List Piece) (b : Builder
       simp only [List.length_nil] at h2 ⊢
       omega
 
-theorem parseSimple_tail (c : SimpleCommand) (tail : List Char) (ht : TailOk tail)
+theorem parseSimple_stop (c : SimpleCommand) (tail : List Char) (ht : StopTail tail)
     (h : SimpleOk c tail) (sp : Bool) :
     ∀ fuel, (printSimple c).length + 2 ≤ fuel →
       parseSimple fuel ((if sp then [' '] else []) ++ (printSimple c ++ tail)) = some (some c, tail) := by
@@ -167,6 +175,12 @@ theorem parseSimple_tail (c : SimpleCommand) (tail : List Char) (ht : TailOk tai
       | cons _ _ => simp
   simp [this]
 
+
+theorem parseSimple_tail (c : SimpleCommand) (tail : List Char) (ht : TailOk tail)
+    (h : SimpleOk c tail) (sp : Bool) :
+    ∀ fuel, (printSimple c).length + 2 ≤ fuel →
+      parseSimple fuel ((if sp then [' '] else []) ++ (printSimple c ++ tail)) = some (some c, tail) :=
+  parseSimple_stop c tail (stopTail_of_tailOk tail ht) h sp
 
 /-! ## Layer 1: pipelines -/
 
@@ -1133,5 +1147,155 @@ def reads (prog : List Item) : Bool :=
   | some (l, r) => printList false l ++ r == printList false prog ++ [')'] && l.length == prog.length
   | none => false
 
+
+
+/-! ## Composition: tails -/
+
+/-- what follows a list inside a compound command: a blank (then a reserved word) or `)` -/
+def ListTail (tail : List Char) : Prop := (∃ x, tail = ' ' :: x) ∨ (∃ x, tail = ')' :: x)
+
+theorem lexToken_op1 (e : Char) (tail : List Char) (o : Op) (he : e ≠ '\\' ∧ isBlank e = false ∧ e ≠ '#')
+    (ho : lexOperator (e :: tail) = some (o, tail)) :
+    lexToken (e :: tail) = some (⟨[], .op o⟩, tail) := by
+  have hk := skipLC_cons_ne e tail he.1
+  unfold lexToken
+  simp only []
+  rw [skipBlanks_stop e tail hk he.2.1, skipComment_id e tail hk he.2.2, ho]
+
+theorem lexToken_semi (tail : List Char) (h : ListTail tail) :
+    lexToken (';' :: tail) = some (⟨[], .op .semicolon⟩, tail) := by
+  apply lexToken_op1 ';' tail .semicolon ⟨by decide, by decide, by decide⟩
+  rcases h with ⟨x, rfl⟩ | ⟨x, rfl⟩ <;> simp [lexOperator, opTail, skipLC_cons_ne, List.lookup]
+
+theorem lexToken_amp (tail : List Char) (h : ListTail tail) :
+    lexToken ('&' :: tail) = some (⟨[], .op .and⟩, tail) := by
+  apply lexToken_op1 '&' tail .and ⟨by decide, by decide, by decide⟩
+  rcases h with ⟨x, rfl⟩ | ⟨x, rfl⟩ <;> simp [lexOperator, opTail, skipLC_cons_ne, List.lookup]
+
+theorem lexToken_rparen (x : List Char) :
+    lexToken (')' :: x) = some (⟨[], .op .closeParen⟩, x) :=
+  lexToken_op1 ')' x .closeParen ⟨by decide, by decide, by decide⟩
+    (by simp [lexOperator, skipLC_cons_ne])
+
+theorem lexToken_lparen (x : List Char) (sp : Bool) :
+    lexToken ((if sp then [' '] else []) ++ '(' :: x) = some (⟨[], .op .openParen⟩, x) := by
+  have hk := skipLC_cons_ne '(' x (by decide)
+  have hsb : skipBlanks ((if sp then [' '] else []) ++ '(' :: x).length
+      ((if sp then [' '] else []) ++ '(' :: x) = '(' :: x := by
+    cases sp with
+    | false => simpa using skipBlanks_stop '(' x hk (by decide) _
+    | true =>
+      have := skipBlanks_pre true '(' x hk (by decide) (([' '] ++ '(' :: x).length) (by simp)
+      simpa using this
+  unfold lexToken
+  simp only []
+  rw [hsb, skipComment_id '(' x hk (by decide)]
+  simp [lexOperator, hk]
+
+/-- the operators that must not follow a pipeline / an and-or list -/
+def contOps : List Op := [.bar, .andAnd, .barBar]
+
+theorem endsWithout_of (tail : List Char) (ht : TailOk tail) (o : Op) (r : List Char)
+    (hl : lexToken tail = some (⟨[], .op o⟩, r)) (bad : List Op) (ho : o ∉ bad) :
+    EndsWithout tail bad := by
+  refine ⟨ht, ?_⟩
+  intro o' r' h'
+  rw [hl] at h'
+  cases h'
+  exact ho
+
+theorem tailOk_cons (e : Char) (rest : List Char) (he : TermOk e) : TailOk (e :: rest) :=
+  ⟨false, e, rest, by simp, he⟩
+
+theorem ends_semi (tail : List Char) (h : ListTail tail) (bad : List Op) (hb : ∀ x ∈ bad, x ∈ contOps) :
+    EndsWithout (';' :: tail) bad :=
+  endsWithout_of _ (tailOk_cons ';' tail (Or.inl rfl)) _ _ (lexToken_semi tail h) bad (fun hm => absurd (hb _ hm) (by decide))
+
+theorem ends_amp (tail : List Char) (h : ListTail tail) (bad : List Op) (hb : ∀ x ∈ bad, x ∈ contOps) :
+    EndsWithout ('&' :: tail) bad :=
+  endsWithout_of _ (tailOk_cons '&' tail (Or.inr (Or.inl rfl))) _ _ (lexToken_amp tail h) bad (fun hm => absurd (hb _ hm) (by decide))
+
+theorem ends_rparen (x : List Char) (bad : List Op) (hb : ∀ y ∈ bad, y ∈ contOps) :
+    EndsWithout (')' :: x) bad :=
+  endsWithout_of _ (tailOk_cons ')' x (Or.inr (Or.inr (Or.inr (Or.inl rfl))))) _ _ (lexToken_rparen x)
+    bad (fun hm => absurd (hb _ hm) (by decide))
+
+/-- ` && …` and ` || …` after a pipeline are not `|` -/
+theorem ends_aoRest (r : AndOrRest) (rs : List AndOrRest) (tail : List Char) :
+    EndsWithout (aoRest (r :: rs) tail) [.bar] := by
+  obtain ⟨isAnd, p⟩ := r
+  cases isAnd with
+  | true =>
+    exact endsWithout_of _ ⟨true, '&', '&' :: ' ' :: (printPipeline p ++ aoRest rs tail), by simp [aoRest],
+      Or.inr (Or.inl rfl)⟩ _ _
+      (by simpa [aoRest] using lexToken_andand (printPipeline p ++ aoRest rs tail)) _ (by decide)
+  | false =>
+    exact endsWithout_of _ ⟨true, '|', '|' :: ' ' :: (printPipeline p ++ aoRest rs tail), by simp [aoRest],
+      Or.inr (Or.inr (Or.inl rfl))⟩ _ _
+      (by simpa [aoRest] using lexToken_barbar (printPipeline p ++ aoRest rs tail)) _ (by decide)
+
+/-- ` | …` after a command -/
+theorem tailOk_pipeRest (d : Command) (ds : List Command) (tail : List Char) :
+    TailOk (pipeRest (d :: ds) tail) :=
+  ⟨true, '|', ' ' :: (printCommand d ++ pipeRest ds tail), by simp [pipeRest], Or.inr (Or.inr (Or.inl rfl))⟩
+
+theorem tailOk_aoRest (r : AndOrRest) (rs : List AndOrRest) (tail : List Char) :
+    TailOk (aoRest (r :: rs) tail) := (ends_aoRest r rs tail).1
+
+
+/-- tokens at which no command starts: a reserved word that opens nothing, or an operator that is neither a
+    redirection nor `(` -/
+def NoStart (t : Token) : Prop :=
+  (t.id = .word true ∧ ∀ k ∈ ["{", "for", "while", "until", "if", "case", "function", "[[", "namespace",
+      "select"], t.isKw k = false) ∨
+  (∃ o, t.id = .op o ∧ o.plain = true)
+
+theorem parseRedir_none_op (cs : List Char) (t : Token) (r : List Char) (o : Op)
+    (hl : lexToken cs = some (t, r)) (hk : t.id = .op o) (hp : o.plain = true) :
+    parseRedir cs = some (none, cs) := by
+  simp only [Op.plain, Bool.and_eq_true, Option.isNone_iff_eq_none, bne_iff_ne, ne_eq] at hp
+  obtain ⟨⟨⟨⟨⟨p1, p2⟩, p3⟩, p4⟩, p5⟩, _⟩ := hp
+  unfold parseRedir
+  rw [hl]
+  simp only [hk]
+  unfold parseRedirBody
+  rw [hl]
+  simp [hk, p1, p2, p3, p4, p5]
+
+theorem parseSimple_none_op (cs : List Char) (t : Token) (r : List Char) (o : Op)
+    (hl : lexToken cs = some (t, r)) (hk : t.id = .op o) (hp : o.plain = true) :
+    ∀ f, 1 ≤ f → parseSimple f cs = some (none, cs) := by
+  intro f hf
+  obtain ⟨k, rfl⟩ : ∃ k, f = k + 1 := ⟨f - 1, by omega⟩
+  have hr := parseRedir_none_op cs t r o hl hk hp
+  simp [parseSimple, parseSimpleLoop, hr, hl, hk, Builder.isEmpty]
+
+theorem isKw_of_op (t : Token) (o : Op) (hk : t.id = .op o) (k : String) : t.isKw k = false := by
+  simp [Token.isKw, hk]
+
+/-- the command parser finds no command at such a token -/
+theorem parseCommand_none (n : Nat) (cs : List Char) (t : Token) (r : List Char)
+    (hl : lexToken cs = some (t, r)) (h : NoStart t) :
+    parseCommand (n + 1) cs = some (none, cs) := by
+  have hs : parseSimple (cs.length + 2) cs = some (none, cs) := by
+    rcases h with ⟨hk, _⟩ | ⟨o, hk, hp⟩
+    · exact parseSimple_none_kw cs t r hl hk _ (by omega)
+    · exact parseSimple_none_op cs t r o hl hk hp _ (by omega)
+  have kws : ∀ k ∈ ["{", "for", "while", "until", "if", "case", "function", "[[", "namespace", "select"],
+      t.isKw k = false := by
+    rcases h with ⟨_, h⟩ | ⟨o, hk, _⟩
+    · exact h
+    · intro k _; exact isKw_of_op t o hk k
+  have hop : t.isOp .openParen = false := by
+    rcases h with ⟨hk, _⟩ | ⟨o, hk, hp⟩
+    · simp [Token.isOp, hk]
+    · have : o ≠ .openParen := by intro e; subst e; revert hp; decide
+      simp [Token.isOp, hk, this]
+  have hc : parseCompound (parseCommand n) cs = some (none, cs) := by
+    simp only [parseCompound, hl, kws "{" (by simp), kws "for" (by simp), kws "while" (by simp),
+      kws "until" (by simp), kws "if" (by simp), kws "case" (by simp), hop, Bool.false_eq_true, if_false,
+      Bool.or_self]
+  simp only [parseCommand, hs, parseFullCompound, hc, hl, kws "function" (by simp), kws "[[" (by simp),
+    kws "namespace" (by simp), kws "select" (by simp), Bool.or_self, Bool.false_eq_true, if_false]
 
 end YashModel.Syntax
